@@ -116,5 +116,41 @@ def Sites.ok (S : Sites) : Bool :=
   (Field.all.all fun f => !S.read f || S.initCleared.contains f) &&
   (Kind.all.all fun k => (S.settable k).all fun f => !S.read f || S.clears k f)
 
+/-! ### the cluster level: `<obs>` … `</obs>` -/
+
+/-- what the translator reads about a whole `<obs>` cluster -/
+structure ObsSites where
+  /-- record tag → the observation class the end-tag handler registered for it `new`s and pushes on
+      `obs_cluster->observation_list` -/
+  builds : Kind → Kind
+  /-- `int dimension() const { return n; }` of the class (g3_observation.h) -/
+  dimension : Kind → Nat
+  /-- the numbers of `g3->scale.push_back(…)` over the accepting paths (`return end_tag(name)`) of that handler -/
+  scalePushes : Kind → List Nat
+
+/-- one record inside `<obs>` as far as the cluster check is concerned: its tag, and how many scale entries its
+    handler pushed on the path it took -/
+abbrev ClusterRec := Kind × Nat
+
+/-- every record took a path its handler has -/
+def ObsSites.validRun (S : ObsSites) (rs : List ClusterRec) : Bool := rs.all fun r => (S.scalePushes r.1).contains r.2
+
+/-- `obs_dim` of `DataParser::g3_obs(const char*)`: the sum of `dimension()` over `observation_list` -/
+def ObsSites.obsDim (S : ObsSites) (rs : List ClusterRec) : Nat := (rs.map fun r => S.dimension (S.builds r.1)).sum
+
+/-- `g3->scale.size()` at `</obs>` (`g3->scale.clear()` at `<obs>`) -/
+def scaleSize (rs : List ClusterRec) : Nat := (rs.map (·.2)).sum
+
+/-- the first check of `DataParser::g3_obs(const char*)`:
+    `if (obs_dim != int(g3->scale.size())) return error("### INTERNAL ERROR …")`.
+    The later checks (no observations, covariance dimension, variances) only refuse more documents. -/
+def ObsSites.scaleCheck (S : ObsSites) (rs : List ClusterRec) : Bool := S.obsDim rs == scaleSize rs
+
+/-- no handler pushes more scale entries than the dimension of what it builds, and every handler that builds a `k`
+    pushes fewer on all its paths — then a cluster with a `k` in it can never pass `scaleCheck` -/
+def ObsSites.starves (S : ObsSites) (k : Kind) : Bool :=
+  Kind.all.all fun t => (S.scalePushes t).all fun c =>
+    decide (c ≤ S.dimension (S.builds t)) && (S.builds t != k || decide (c < S.dimension (S.builds t)))
+
 end G3Parser
 end Gama
